@@ -71,6 +71,42 @@ TZ_STRINGS = ["12/05/2015 10:30 UTC", "12/05/2015 10:30 UTC+5", "12/05/2015 10:3
               "12/05/2015 10:30 CEST", "12/05/2015 10:30 GMT+0200 (CEST)", "12/05/2015 10:30 Z", "12/05/2015 10:30"]
 
 
+_OWN_REL = {}
+
+
+def own_relative_phrases(per_locale):
+    """[(locale, language, phrase)]: phrases a regional locale lists itself (not inherited), numbers instantiated."""
+    if per_locale in _OWN_REL:
+        return _OWN_REL[per_locale]
+    from .oracles import vocab
+
+    out = []
+    for lang, loc in vocab.all_locales():
+        if loc == lang:
+            continue
+        base = vocab.language_data(lang)
+        spec = (base.get("locale_specific", {}) or {}).get(loc, {}) or {}
+        inherited = set()
+        for key in ("relative-type-regex", "relative-type"):
+            for canon, ws in (base.get(key) or {}).items():
+                inherited.update(w for w in ws if isinstance(w, str))
+        got = []
+        for canon, pats in (spec.get("relative-type-regex") or {}).items():
+            for ptn in pats:
+                if ptn in inherited:
+                    continue
+                if r"(\d+[.,]?\d*)" in ptn and "\\" not in ptn.replace(r"(\d+[.,]?\d*)", ""):
+                    got.append(ptn.replace(r"(\d+[.,]?\d*)", "2"))
+        for canon, words in (spec.get("relative-type") or {}).items():
+            got += [w for w in words if isinstance(w, str) and w not in inherited]
+        # spread over the list rather than its head
+        step = max(1, len(got) // per_locale)
+        for phrase in got[::step][:per_locale]:
+            out.append((loc, lang, phrase))
+    _OWN_REL[per_locale] = out
+    return out
+
+
 def build_pool(tier):
     """Deterministic list of call descriptors (dicts)."""
     P = []
@@ -128,6 +164,12 @@ def build_pool(tier):
     for s in PLAIN_STRINGS:
         P.append({"api": "parse", "s": s, "lang": None, "si": 0, "nobase": True, "grp": "plain"})
         P.append({"api": "search", "s": s, "lang": None, "si": 0, "nobase": True, "adl": False, "grp": "plain"})
+    # regional locales that add relative phrases/patterns of their own (read from the shipped data files): the same phrase
+    # through the locale and through its language, under equal settings, in whatever order a history puts them
+    for loc, lang, phrase in own_relative_phrases(2 if tier == "quick" else 4):
+        for si in (0, 4):
+            P.append({"api": "ddp", "s": phrase, "lang": None, "locales": [loc], "si": si, "nobase": False, "grp": "relloc"})
+            P.append({"api": "parse", "s": phrase, "lang": lang, "si": si, "nobase": False, "grp": "relloc"})
     for l, s in BAD_LANG:
         P.append({"api": "parse", "s": s, "lang": l, "si": 0, "nobase": False})
         P.append({"api": "ddp", "s": s, "lang": l, "si": 1, "nobase": False})
@@ -135,6 +177,10 @@ def build_pool(tier):
     P.append({"api": "jalali", "s": "1395/05/13 10:30", "lang": None, "si": 0, "nobase": False})
     P.append({"api": "hijri", "s": "1437/05/13", "lang": None, "si": 0, "nobase": False})
     P.append({"api": "hijri", "s": "17-01-1437 08:30 مساءً", "lang": None, "si": 0, "nobase": False})
+    # the same numbers read by both calendars
+    for s in ("1400/01/15", "1437/05/13", "1395/05/13 10:30"):
+        P.append({"api": "jalali", "s": s, "lang": None, "si": 0, "nobase": False, "grp": "cal"})
+        P.append({"api": "hijri", "s": s, "lang": None, "si": 0, "nobase": False, "grp": "cal"})
     for i, c in enumerate(P):
         c["id"] = i
     return P
